@@ -116,6 +116,12 @@ def injections(world, ep, sa):
                 for blab, first, body in bodies:
                     yield ('cleartext:exch=%d:%s:mid=%s:%s' % (exch, 'res' if rflag else 'req', mlab, blab),
                            F.clear_raw(spi_i, spi_r, exch, iflag | rflag, mid, first, body))
+    # something that looks protected but is not: an SK payload with arbitrary content (the checksum fails)
+    for exch in (F.IKE_AUTH, F.CCSA, F.INFO):
+        for rflag, mid in ((0, sa.peer_msg_id), (F.F_R, sa.my_msg_id)):
+            for n in (0, 8, 48, 80):
+                yield ('garbage-sk:exch=%d:%s:len=%d' % (exch, 'res' if rflag else 'req', n),
+                       F.clear(spi_i, spi_r, exch, iflag | rflag, mid, [(F.SK, bytes((7 * i + 3) & 0xFF for i in range(n)))]))
     # wrong role flag (as if the endpoint's own message came back)
     yield ('cleartext:own-role-flag', F.clear_raw(spi_i, spi_r, F.INFO, (0 if iflag else F.F_I), sa.peer_msg_id, 0, b''))
     # mutated authentic messages
@@ -177,8 +183,12 @@ def _posname(pos, n, icv):
     return 'ct-block%d' % ((pos - 48) // 16)
 
 
-def state_class(ep):
-    return (ep.name,) + tuple((s.is_initiator, s.state.name, s.peer_crypto is not None) for s in ep.controller.ike_sas)
+def state_class(world, ep):
+    """(endpoint, roles / states of its IKE_SAs, kinds of authentic protected messages the adversary has seen for it)"""
+    seen = sorted({(d.data[18], bool(d.data[19] & F.F_R)) for d in list(world.net) + list(world.sent_log)
+                   if d.sender != ep.name and d.data[18] != F.INIT})
+    return (ep.name, tuple(seen)) + tuple((s.is_initiator, s.state.name, s.peer_crypto is not None)
+                                         for s in ep.controller.ike_sas)
 
 
 def check_one(world, name, sa_index, label, data):
@@ -233,7 +243,7 @@ def sm_inject(world):
         ep = world.endpoints[name]
         if not P.live(ep):
             continue
-        cls = state_class(ep)
+        cls = state_class(world, ep)
         if ck.quick and cls in SEEN_CLASSES:
             continue
         SEEN_CLASSES.add(cls)
@@ -256,31 +266,69 @@ def sm_inject(world):
                            dict(inject=dict(ep=name, sa_index=i, label=label, data=data)))
 
 
-def direct_init_retransmission():
-    """the one allowed reply: a copy of the IKE_SA_INIT request at a half-open responder IKE_SA is answered with the
-    byte-identical stored response and changes nothing else (IkeSa.process_message entry point)"""
-    w = S.new_world()
-    w.sent_log = []
-    w.step(('acquire', 'A', 0, 0))
-    req = w.net[0]
-    w.step(('deliver', req.id))
-    res = w.net[0]
-    b = w.endpoints['B']
-    sa = b.controller.ike_sas[0]
-    before = snapshot(b, w.clock)
-    w._enter(b)
-    try:
-        out = sa.process_message(req.data)
-    finally:
-        w._leave()
-    after = snapshot(b, w.clock)
-    probs = []
-    if out is None or bytes(out) != res.data:
-        probs.append(('init-retransmission-not-answered-from-cache', 'reply %r' % (None if out is None else 'differs')))
-    b2 = [x for i, x in enumerate(before)]
-    if diff_fields(before, after) not in ('unknown', 'IKE_SA[0].start_dpd_at'):
-        probs.append(('init-retransmission-changes-state', diff_fields(before, after)))
-    return probs
+def direct_cases():
+    """IkeSa.process_message called directly (the entry point the repository's own tests use) with copies of the
+    IKE_SA_INIT request, on IKE_SAs with keys of both roles in several states.  The one allowed reply: a responder that
+    has not seen IKE_AUTH yet answers a copy of the request it received with the byte-identical stored response.
+    Everything else: no reply, nothing changes."""
+    out = []
+
+    def states():
+        w = S.new_world()
+        w.sent_log = []
+        w.step(('acquire', 'A', 0, 0))
+        w.step(('deliver', w.net[0].id))
+        yield 'half-open', w.fork()
+        w.step(('deliver', w.net[0].id))
+        yield 'auth-sent', w.fork()
+        w.deliver_all()
+        yield 'established', w.fork()
+        w.step(('due', 'B', 0, 'dpd'))
+        yield 'b-dpd-outstanding', w.fork()
+        w.deliver_all()
+        yield 'after-one-exchange-from-b', w.fork()
+        w.step(('due', 'A', 0, 'dpd'))
+        yield 'a-dpd-outstanding', w.fork()
+        w.deliver_all()
+        w.step(('due', 'A', 0, 'rekey_ike'))
+        w.step(('deliver', w.net[0].id))
+        yield 'rekeyed-at-b', w.fork()
+
+    for label, w0 in states():
+        inits = [d for d in w0.sent_log if d.data[18] == F.INIT and not d.data[19] & F.F_R]
+        resps = [d for d in w0.sent_log if d.data[18] == F.INIT and d.data[19] & F.F_R]
+        for name in ('A', 'B'):
+            for i, sa0 in enumerate(w0.endpoints[name].controller.ike_sas):
+                if sa0.peer_crypto is None:
+                    continue
+                for kind, dg in [('init-request', d) for d in inits[-1:]] + [('init-response', d) for d in resps[-1:]]:
+                    w = w0.fork()
+                    ep = w.endpoints[name]
+                    sa = ep.controller.ike_sas[i]
+                    before = snapshot(ep, w.clock)
+                    w._enter(ep)
+                    try:
+                        reply = sa.process_message(dg.data)
+                        err = None
+                    except Exception as ex:   # noqa
+                        reply, err = None, ex
+                    finally:
+                        w._leave()
+                    after = snapshot(ep, w.clock)
+                    COVER['direct-calls'] += 1
+                    may_answer = (kind == 'init-request' and not sa0.is_initiator and sa0.state == State.INIT_RES_SENT)
+                    who = '%s:%s:%s' % ('initiator' if sa0.is_initiator else 'responder', sa0.state.name, kind)
+                    if may_answer:
+                        if reply is None or bytes(reply) != resps[-1].data:
+                            out.append(('direct:init-retransmission-not-answered-from-cache:%s' % who,
+                                        'a copy of the IKE_SA_INIT request got %s' % ('no reply' if reply is None else 'a different reply')))
+                    elif reply is not None:
+                        out.append(('direct:reply-elicited:%s' % who, 'process_message answered a cleartext %s with %d octets [%s]'
+                                    % (kind, len(reply), label)))
+                    d = diff_fields(before, after)
+                    if before != after and not (may_answer and d == 'IKE_SA[%d].start_dpd_at' % i):
+                        out.append(('direct:state-changed:%s' % who, 'a cleartext %s changed %s [%s]' % (kind, d, label)))
+    return out
 
 
 def run(i):
@@ -296,7 +344,7 @@ def run(i):
 def replay(path):
     doc = jdec(json.load(open(path)))
     if 'direct' in doc.get('scenario', {}):
-        res = direct_init_retransmission()
+        res = direct_cases()
     else:
         sc = doc['scenario']
         w = build(sc)
@@ -321,12 +369,12 @@ def main():
         outcomes.update(sm.get('outcomes', {}))
         samples += sm['samples'][:1]
         print('  scenario', stats[-1])
-    for sig, msg in direct_init_retransmission():
-        ck.violation('direct:' + sig, msg, dict(scenario=dict(direct=True), history=[]))
+    for sig, msg in direct_cases():
+        ck.violation(sig, msg, dict(scenario=dict(direct=True), history=[]))
     m = merge_stats(stats)
     ck.coverage.update(states=m['states'], transitions=m['transitions'] + cover['injections'], max_depth=m['max_depth'],
                        traces_validated_against_impl=m['replays_validated'], caps_hit=m['caps_hit'],
-                       exhaustive=m['completed'], injections=cover['injections'],
+                       exhaustive=m['completed'], injections=cover['injections'], direct_process_message_calls=COVER['direct-calls'],
                        injection_kinds={k[5:]: v for k, v in cover.items() if k.startswith('kind:')},
                        ike_sa_states_attacked={k[10:]: v for k, v in cover.items() if k.startswith('sa-states:')},
                        distinct_effects=dict(outcomes), per_scenario=stats,
